@@ -82,6 +82,7 @@ pub enum OpK {
     Sleep,
     SpawnActor,
     Fork,
+    AwaitLog,
     // registry
     FromRegistry,
     Setup,
@@ -205,6 +206,10 @@ pub fn log(k: K) -> u64 {
 
 pub fn take() -> Vec<Ev> {
     std::mem::take(&mut *LOG.lock().unwrap_or_else(|e| e.into_inner()))
+}
+
+pub fn count(f: impl Fn(&Ev) -> bool) -> usize {
+    LOG.lock().unwrap_or_else(|e| e.into_inner()).iter().filter(|e| f(e)).count()
 }
 
 pub fn len() -> usize {
